@@ -211,6 +211,42 @@ fn shared_component_histories(r: &mut Report) {
     r.evaluations += evals;
 }
 
+/// Binding tables (alphas, variables) are per-application hash maps with their own random state: a rule whose outcome depends on the order in
+/// which such a table is walked answers differently from call to call in ONE process. Every rule of a small grammar that binds something before
+/// an environment construct that retries (a set, an optional, an environment set) and uses it afterwards is run 12 times on every word; all 12
+/// outcomes (and the trace's) must be the same. The harness cannot choose these seeds (they are drawn inside std), so this box is a replay check.
+fn repeated_calls(r: &mut Report) {
+    let pres = ["[αnasal]", "[αvoice]", "C=1", "[αnasal, γvoice]", "[γvoice] [αnasal]"];
+    let mids = ["{[βcont, +voice], C}", "{[βvoice, +cont], [βnasal]}", "{C=2 [+voice], C}", "([βcont, +voice]) C", "{[βcont, δvoice], C}", "{[βcont, γvoice, +nasal], C} [γvoice]"];
+    let outs = ["[αnasal]", "[αvoice]", "[+nasal]", "1", "[αnasal, γvoice]"];
+    let words = ["mas", "maz", "pat", "mazd", "a.mas.ta"];
+    let mut rules: Vec<String> = vec![];
+    for p in pres { for m in mids { for o in outs {
+        rules.push(format!("V > {} / {} _ {}", o, p, m));
+        rules.push(format!("V > {} / :{{ {} _ {}, {} _ # }}:", o, p, m, p));
+        rules.push(format!("* > ə / {} _ {}", p, m));
+    } } }
+    let (mut evals, mut distinct_all) = (0u64, BTreeSet::new());
+    for rule in &rules { for w in words {
+        let g = vec![group(&[rule.as_str()])]; let ws = vec![w.to_string()];
+        let one = || -> String { match guarded(budget_for(12, 90) * 2, || asca::run(&g, &ws, &[], &[])) { Out::Ok(x) => show_result(&x, &g, &ws, &[], &[]), o => o.crash_sig().unwrap() } };
+        let tr = || -> String { match guarded(budget_for(12, 90) * 2, || asca::get_trace_string(&g, ws[0].clone(), &[])) { Out::Ok(x) => format!("{:?}", x.map_err(|e| format!("{:?}", std::mem::discriminant(&e)))), o => o.crash_sig().unwrap() } };
+        let (first, first_tr) = (one(), tr());
+        distinct_all.insert(first.clone());
+        for k in 1..12 {
+            evals += 2;
+            let (again, again_tr) = (one(), tr());
+            if again != first || again_tr != first_tr {
+                r.viol(Viol { key: format!("repeat|{}|{}", rule, w), desc: format!("call {} of run / get_trace_string with rule `{}` on `{}` gives {} / {}, the first call gave {} / {}", k + 1, rule, w, again, again_tr, first, first_tr), case: json!({"kind": "history"}) });
+                break;
+            }
+        }
+    } }
+    r.boxes.push(json!({"box": "the same call 12 times in one process: rules that bind alphas / variables before a set, optional or environment set and use them afterwards", "rules": rules.len(), "words": words.len(), "repeated_calls": evals, "distinct_results": distinct_all.len()}));
+    r.guard(distinct_all.len() > 20, "repeated calls: more than 20 distinct results");
+    r.evaluations += evals;
+}
+
 /// The command line answers the same in every process: a project whose tags use multi-name `~` / `!` filters (the order of the names is part of
 /// the meaning of `~`), aliases and pipelines is run 12 times, each in a fresh directory and process; stdout and every written file must agree.
 /// A replay check like the 16 unseeded table orders: it owns no choice, it shows that there is none left (per-process hash seeds included).
@@ -300,6 +336,7 @@ pub fn run() -> i32 {
     r.guard(base.len() > 5000, "more than 5000 observations per process");
     r.evaluations = compared; r.transitions = orders.len() as u64; r.validated = compared; r.nontrivial = renderable; r.states_count_override = Some(base.len() as u64);
     in_process(&mut r);
+    repeated_calls(&mut r);
     cli_processes(&mut r);
     r.sample(json!({"order": "front:ɢǀ", "observation": base.iter().find(|l| l.contains("qǀ") || l.contains("ɢǀ")).cloned()}));
     r.sample(json!({"observation": base.get(base.len() / 2).cloned()}));
